@@ -583,14 +583,14 @@ pub fn process<I: BufRead, O: Write>(
                         let mut value = buf.to_string();
                         if !params.is_empty() {
                             for (k, v) in params.split(',').enumerate() {
-                                let re = Regex::new(&format!("\\b{}\\b", v.trim_start())).unwrap();
+                                let re = Regex::new(&format!("\\b{}\\b", v.trim())).unwrap();
                                 value = re.replace_all(&value, format!("\u{1}{}\u{1}", k)).to_string();
                             }
                         }
                         let mut value = context.replace_all(&value);
                         if !params.is_empty() {
                             for (k, v) in caps.get(2).unwrap().as_str().split(',').enumerate() {
-                                let vx = v.trim_start();
+                                let vx = v.trim();
                                 value = value.replace(&format!("\u{1}{}\u{1}", k), &format!("${{{}}}", vx));
                                 //rex += &format!("(?P<{}>[^,]*?),", vx);
                                 rex += &format!(
